@@ -5,10 +5,10 @@
          str comparison is lexicographic on code points -> `lex_leb` on `list N`.
    (a) evaluation of a module DAG in a given processing order.
    Models of: nodes.SymbolTable.write (the JSON format is canonicalised by util.json_dumps(sort_keys), same model;
-   SymbolTable.serialize itself iterates in insertion order), types.write_type_map, the sorted(<set>) string lists
+   SymbolTable.serialize itself iterates in insertion order), the sorted(<set>) string lists
    (future_import_flags, slots, immutable, required_keys, readonly_keys, scc.mod_ids, unused-ignore codes),
    build.transitive_dep_hash, State.patch_indirect_dependencies, build.order_ascc (uniform-priority case),
-   build.sorted_components (`sorted_ready`), build.deps_to_json (NOT sorted), errors.Errors.sort_messages /
+   build.sorted_components (`sorted_ready`), build.deps_to_json (sorted or not: generated flag), errors.Errors.sort_messages /
    sort_within_context. *)
 From Coq Require Import List NArith ZArith Bool.
 Import ListNotations.
@@ -73,18 +73,14 @@ Section Writers.
     flat_map (fun kv => write_str (fst kv) ++ write_value (fst kv) (snd kv))
              (filter keep (isort fst lex_leb items)).
 
-  (* types.write_type_map *)
-  Definition type_map_write (items : list (name * V)) : bytes :=
-    tag_dict ++ write_int (length items) ++
-    flat_map (fun kv => write_str (fst kv) ++ write_value (fst kv) (snd kv)) (isort fst lex_leb items).
-
   (* write_str_list(data, sorted(<set of str>)) : `enum` is the set in whatever order CPython iterates it *)
   Definition str_set_write (enum : list name) : bytes :=
     write_int (length enum) ++ flat_map write_str (sorted_names enum).
 
-  (* build.deps_to_json: {k: list(v)} -- the targets of a trigger are written in SET ITERATION ORDER *)
-  Definition deps_targets_write (enum : list name) : bytes :=
-    write_int (length enum) ++ flat_map write_str enum.
+  (* build.deps_to_json: {k: sorted(v)} when `sorted_flag` (the flag is regenerated from the source:
+     Gen.SortedSites.deps_to_json_sorted); {k: list(v)} -- SET ITERATION ORDER -- otherwise *)
+  Definition deps_targets_write (sorted_flag : bool) (enum : list name) : bytes :=
+    write_int (length enum) ++ flat_map write_str (if sorted_flag then sorted_names enum else enum).
 End Writers.
 
 (* build.transitive_dep_hash: deps are (id, is_indirect, trans_dep_hash of the dep); `digest` un-modelled *)
